@@ -118,14 +118,26 @@ impl RunOut {
     }
 }
 
+/// An ignited engine, to be used for several runs the way the server does.
+pub fn engine(config: &Config, offline: bool) -> Result<Engine, String> {
+    let mut engine = Engine::new(config, !offline)
+        .map_err(|_| "Engine::new failed".to_string())?;
+    engine.ignite().map_err(|_| "ignite failed".to_string())?;
+    Ok(engine)
+}
+
 /// One validation run with the collector on (unless `offline`).
 pub fn run(
     config: &Config, offline: bool, exceptions: &LocalExceptions
 ) -> Result<RunOut, String> {
-    let mut engine = Engine::new(config, !offline)
-        .map_err(|_| "Engine::new failed".to_string())?;
-    engine.ignite().map_err(|_| "ignite failed".to_string())?;
-    let (report, mut metrics) = ValidationReport::process(&engine, config, false)
+    run_on(&engine(config, offline)?, config, exceptions)
+}
+
+/// One validation run on an existing engine.
+pub fn run_on(
+    engine: &Engine, config: &Config, exceptions: &LocalExceptions
+) -> Result<RunOut, String> {
+    let (report, mut metrics) = ValidationReport::process(engine, config, false)
         .map_err(|e| format!("run failed (fatal={})", e.is_fatal()))?;
     let snapshot = report.into_snapshot(exceptions, &mut metrics);
     let data = DataSet::from_snapshot(&snapshot);
